@@ -12,6 +12,12 @@ CONSTANTS
   MemSoft = {0}
   CpuAmt = {2, 6, 14}
   MemAmt = {2, 4}
+  MsLim = {0}
+  MsSoft = {0}
+  Ticks = {}
+  ThrInc = 10000
+  MaxClk = 0
+  OldPopOrder = FALSE
   XFlags = {}
   MaxDepth = 3
   MaxFrames = 2
